@@ -102,7 +102,7 @@ def corpus(tier, seed):
     base = G.kinds("base")
     groups = G.kinds("groups")
     for k in base + groups:
-        yield "G1", G.document([k])
+        yield "G1" + ("g" if (":" in k or k in G.NESTED) else ""), G.document([k])
         yield "G1fill", G.document([k], "fill")
     for a, b in itertools.product(base, repeat=2):
         if not G.has_unsupported([a, b]):
@@ -149,6 +149,9 @@ def cases(tier, seed):
             nds = [3] if k % 4 else [0, 1, 2, 3, 4, 5, 6]
         if src.startswith("F:"):
             nds = [3, 0, 6] if tier == "quick" else [0, 1, 2, 3, 4, 5, 6]
+        if src == "G1g":
+            # kept / flattened groups: opacity products meet the coarsest and the default rounding
+            nds = [0, 1, 3] if tier == "quick" else [0, 1, 2, 3, 4, 5, 6]
         yield {"doc": doc, "nds": nds, "src": src}
 
 
